@@ -2,6 +2,7 @@
 mod builtins;
 mod c11;
 mod c12;
+mod c15;
 mod c16;
 mod c17;
 mod check;
@@ -112,6 +113,13 @@ fn main() {
                 println!("{}", serde_json::to_string(&(seed, v.hashes)).unwrap());
             }
         }
+        Some("parse-ref") => {
+            let os: u8 = args.get(2).and_then(|s| s.parse().ok()).unwrap_or(0);
+            c15::parse_ref_main(os);
+        }
+        Some("exec-history") => {
+            c15::exec_history_main();
+        }
         Some("gen") => {
             let id = args.get(2).cloned().unwrap_or_default();
             let Some(c) = get_check(&id) else { std::process::exit(2) };
@@ -164,6 +172,7 @@ fn get_check(id: &str) -> Option<&'static dyn check::Check> {
     match id {
         "C11" => Some(&c11::C11),
         "C12" => Some(&c12::C12),
+        "C15" => Some(&c15::C15),
         "C16" => Some(&c16::C16),
         "C17" => Some(&c17::C17),
         _ => None,
